@@ -41,6 +41,11 @@ def gen(ctx):
     n = int(rng.integers(8, 34))
     coords = np.unique(gen_coords(rng, n, dim=2, kind=kind), axis=0)
     rng.shuffle(coords, axis=0)
+    if rng.random() < 0.3:
+        # co-located observations: such a pair has no direction, it belongs to no sector whatever the azimuth
+        k = int(rng.integers(1, 4))
+        coords = np.vstack([coords, coords[rng.integers(0, len(coords), size=k)]])
+        rng.shuffle(coords, axis=0)
     values = gen_values(rng, coords, str(rng.choice(['field', 'int'])))
     az = float(rng.choice([0, 45, 90, 135, 180, -180, -90, -45, 30, rng.uniform(-180, 180)]))
     tol = float(rng.choice([0, 10, 22.5, 45, 90, 180, 270, 360, rng.uniform(0, 360)]))
@@ -84,6 +89,11 @@ def geometry(coords, az, bw_value):
         for j in range(i + 1, n):
             vx, vy = coords[i][0] - coords[j][0], coords[i][1] - coords[j][1]
             d = math.hypot(vx, vy)
+            if d == 0.0:
+                # co-located points: no direction
+                ang.append(float('nan'))
+                off.append(0.0)
+                continue
             dot = abs(vx * ux + vy * uy) / d
             cross = abs(vx * uy - vy * ux)
             # numerically robust angle between undirected lines
@@ -128,6 +138,7 @@ def check_case(ctx, case):
         bw_spec = float(case['bandwidth'])
     want = ang <= tol / 2
     near = np.abs(ang - tol / 2) < 1e-7
+    near |= ~np.isfinite(ang)
     if model == 'triangle':
         want &= off <= bw_spec / 2
         near |= np.abs(off - bw_spec / 2) < 1e-9 * max(1.0, bw_spec)
@@ -214,6 +225,7 @@ def check_case(ctx, case):
         ang2, off2 = geometry(coords, az, bw2)
         want2 = ang2 <= tol / 2
         near2 = np.abs(ang2 - tol / 2) < 1e-7
+        near2 |= ~np.isfinite(ang2)
         if model == 'triangle':
             want2 &= off2 <= bw2 / 2
             near2 |= np.abs(off2 - bw2 / 2) < 1e-9 * max(1.0, bw2)
@@ -241,7 +253,7 @@ def run(ctx):
         ctx.violation('construction', 'every DirectionalVariogram(...) raises %s: %s' % (type(err).__name__, err), case,
                       signature=dict(kind='construction'))
         return
-    for k in range(ctx.n(100, 800)):
+    for k in range(ctx.n(160, 1500)):
         check_case(ctx, gen(ctx))
     ctx.lean.flush()
 
